@@ -112,6 +112,11 @@ structure Sys where
   b : End
   ab : Wire := {}
   ba : Wire := {}
+  /-- how a Write that fails towards a dead peer is read: `false` = its header call failed before
+      the first byte (the mux lives on), `true` = it failed later (header partly out, or in the
+      payload call: the mux closes and latches the write error).  Not observable at the Write;
+      the driver tries both readings. -/
+  epipeCloses : Bool := false
 
 def Sys.init (cfg : Cfg) : Sys := { a := { st := MuxSt.init cfg }, b := { st := MuxSt.init cfg } }
 
@@ -251,7 +256,18 @@ def Sys.apply (s : Sys) (idx : Nat) (op : Op) (seen : Seen) (_late : Option Seen
           let w := { s.outWire x with tear := none }
           if seen != .err "wfail" then
             throw s!"write h={op.h}: the header write was torn after {k} bytes, implementation {seen.show}"
-          if k = 0 || k ≥ 8 then
+          let first := ((chunks e.st.cfg.mp op.payload).getD [[]]).headD []
+          if k ≥ 8 then
+            -- the header of the first frame went out whole, its PAYLOAD write was torn after
+            -- k-8 bytes (k-8 < its length; the generators only arm such a tear).  Repaired code
+            -- (NriModel/MuxWriter.lean, `fixed`): the mux closes whatever k-8 is — the orphan
+            -- header must stay the last thing on the trunk.
+            if k - 8 < first.length then
+              match e.fire (.write op.h op.payload (.errTrunk true)) with
+              | some e' => return (s.setEnd x e').setOutWire x (w.push ((encodeFrame ⟨c.id, first⟩).take k))
+              | none => throw "write: errTrunk not enabled"
+            else throw s!"write h={op.h}: a payload tear after {k - 8} bytes of a {first.length}-byte payload is not a tear"
+          else if k = 0 then
             match e.fire (.write op.h op.payload (.errTrunk false)) with
             | some e' => return (s.setEnd x e').setOutWire x w
             | none => throw "write: errTrunk not enabled"
@@ -313,7 +329,7 @@ def Sys.apply (s : Sys) (idx : Nat) (op : Op) (seen : Seen) (_late : Option Seen
             let w := s.outWire x
             return s.setOutWire x (if w.exactUpTo.isNone then { w with exactUpTo := some w.sent.length } else w)
         | none => pure ()
-        match e.fire (.write op.h op.payload (.errTrunk false)) with
+        match e.fire (.write op.h op.payload (.errTrunk s.epipeCloses)) with
         | some e' =>
           let w := s.outWire x
           let w' := if w.exactUpTo.isNone then { w with exactUpTo := some w.sent.length } else w
